@@ -2,11 +2,15 @@
   FspecAllRepl5 — C05 for `replace`, pair reading, part 5: the last step.  On the forest
   `(replMid …).mergeNewAt q new` (child list `mergeNew new (lX ++ t :: rX)` at the parent, `PutSite`):
 
-  * xot's last consolidation `remove_consolidate(previous, next_sibling(previous))` is the pair merge
-    of the two former neighbours of the replaced node (`final_after`, `final_first`): the model is
-    `specReplaceK`;
-  * that pair merge after `mergeNew` is `mergeNew3` unless the left neighbour has been merged away
-    and the replacing text node now stands between two text nodes (`mergeK_eq_mergeP`).
+  * xot's last consolidation `remove_consolidate(previous_sibling(next), next)` (609b613) completes
+    `mergeNew` to `mergeNew3` in every geometry (`prevStep_noop`, `prevStep_merge`, `final_next`,
+    `final_last`): the model is `specReplaceP`;
+  * the pair merge of the two FORMER neighbours of the replaced node,
+    `remove_consolidate(previous, next_sibling(previous))` (`final_after`, `final_first`; what xot did
+    before 609b613), after `mergeNew` is `mergeNew3` too unless the left neighbour has been merged
+    away and the replacing text node now stands between two text nodes (`mergeK_eq_mergeP`) — used
+    for the forests without adjacent text nodes (`FspecRepl4.lean`), where the lemmas are stated in
+    that form.
 -/
 import XotModel.Lemmas.FspecAllRepl4
 import XotModel.Lemmas.FspecAllUnwrap
